@@ -35,12 +35,15 @@ FloatKind(dt) == dt \in {"float64", "float32", "float16"}
 SpaceFails(r) ==
   LET cx == RepCtx(r.kind_, Sp(r))
   IN Clause("C15.keys", ToSet(r.keys) = Keys(r))
-     \cup UNION {Clause("C15.space",
+     \* the declared bounds are those of the specification (not demanded by the property: drift)
+     \cup UNION {Clause("DRIFT.space",
                    /\ r.spaces[k].type = SpecType(k)
-                   /\ r.spaces[k].lo = SpecLo(r, cx, k) /\ r.spaces[k].hi = SpecHi(r, cx, k)
-                   \* the gym space advertises the same bounds and a dtype of the right kind
-                   /\ r.gym[k].lo = SpecLo(r, cx, k) /\ r.gym[k].hi = SpecHi(r, cx, k)
-                   /\ (IF k = "agent" THEN FloatKind(r.gym[k].dtype) ELSE IntKind(r.gym[k].dtype)))
+                   /\ r.spaces[k].lo = SpecLo(r, cx, k) /\ r.spaces[k].hi = SpecHi(r, cx, k))
+                 : k \in Keys(r) \cap ToSet(r.keys)}
+     \* the gym space advertises the bounds the representation declares, with a dtype of the right kind
+     \cup UNION {Clause("C15.gym",
+                   /\ r.gym[k].lo = r.spaces[k].lo /\ r.gym[k].hi = r.spaces[k].hi
+                   /\ (IF r.spaces[k].type = "CONTINUOUS" THEN FloatKind(r.gym[k].dtype) ELSE IntKind(r.gym[k].dtype)))
                  : k \in Keys(r) \cap ToSet(r.keys)}
 
 \* arrays of the specification; the agent array as numerators over (H-1, W-1)
@@ -55,6 +58,30 @@ Within(x, lo, hi, depth) == \* depth = number of array dimensions
   IF depth = 0 THEN lo <= x /\ x <= hi
   ELSE DOMAIN x = DOMAIN lo /\ DOMAIN x = DOMAIN hi /\ \A a \in DOMAIN x : Within(x[a], lo[a], hi[a], depth - 1)
 Dims(k) == CASE k = "grid" -> 3 [] k = "agent_id_grid" -> 2 [] OTHER -> 1
+\* the code's own encoding table (object -> triple), read through convert()
+TabFn(r) == [o \in {r.table[k][1] : k \in DOMAIN r.table} |-> (CHOOSE k \in DOMAIN r.table : r.table[k][1] = o)]
+Lookup(r, o) == LET q == [t |-> o.t, s |-> o.s, c |-> o.c, in |-> <<>>]
+                    ks == {k \in DOMAIN r.table : r.table[k][1].t = o.t /\ r.table[k][1].s = o.s /\ r.table[k][1].c = o.c}
+                IN IF ks = {} THEN <<-1, -1, -1>> ELSE r.table[CHOOSE k \in ks : TRUE][2]
+TableFails(r) ==
+  IF r.table = <<>> THEN {}
+  ELSE LET E == [k \in DOMAIN r.table |-> r.table[k][2]]
+           vals(ch) == {E[k][ch] : k \in DOMAIN E}
+           used == vals(1) \cup vals(2) \cup vals(3)
+       IN \* positional: every entry is the table entry of the object in that cell; the same table everywhere
+          Clause("C16.positional",
+                 /\ \A q \in GPositions(r.st.grid) : r.conv.grid[q[1] + 1][q[2] + 1] = Lookup(r, Cell(r.st.grid, q))
+                 /\ r.conv.item = Lookup(r, r.st.item))
+          \* lossless on objects: distinct objects (type, status, colour) get distinct triples
+          \cup Clause("C16.injective", \A a, b \in DOMAIN r.table : E[a] = E[b] => ObjEq(r.table[a][1], r.table[b][1]))
+          \cup Clause("C16.nooverlap", r.name = "no-overlap" =>
+                        \A c1, c2 \in 1..3 : c1 # c2 => vals(c1) \cap vals(c2) = {})
+          \cup Clause("C16.compact", r.name = "compact" =>
+                        /\ used = 0..(Cardinality(used) - 1)
+                        /\ \A c1, c2 \in 1..3 : c1 # c2 => vals(c1) \cap vals(c2) = {})
+          \cup Clause("C16.default", r.name = "default" =>
+                        \A k \in DOMAIN r.table : E[k] = <<TypeIndex(r.table[k][1].t), r.table[k][1].s, ColorIndex(r.table[k][1].c)>>)
+
 ConvFails(r) ==
   LET cx == RepCtx(r.kind_, Sp(r))
       h == r.space.shape[1]
@@ -69,9 +96,12 @@ ConvFails(r) ==
                      /\ \A a \in 3..6 : r.conv[k][a] \in {0, 1}
                 ELSE /\ Within(r.conv[k], r.spaces[k].lo, r.spaces[k].hi, Dims(k))
                      /\ IntKind(r.dtypes[k]) /\ r.contains[k] /\ r.gymcontains[k])
-       \* and are exactly the positional encoding of the specification
-       \cup Clause("C16.enc", r.conv[k] = SpecArray(r, cx, k))
+       \* exact agreement with the encoding of the specification: demanded for the default encoding (the index
+       \* triple) and for the agent marker / pose; for no-overlap and compact only the stated properties are
+       \* demanded (TableFails) and a different but equally good numbering is drift
+       \cup Clause(IF r.name = "default" \/ k \in {"agent_id_grid", "agent"} THEN "C16.enc" ELSE "DRIFT.enc", r.conv[k] = SpecArray(r, cx, k))
        : k \in Keys(r)}
+     \cup TableFails(r)
 
 PairFails(r) ==
   LET same == r.conv1 = r.conv2
